@@ -118,7 +118,8 @@ let () = List.iter (fun (n, c) -> Hashtbl.replace opcodes n c) [
   "protect", 56; "unprotect", 57; "protect_rtcp", 58; "unprotect_rtcp", 59;
   "setroc", 60; "getroc", 61; "trailer", 62; "poke_limit", 63; "poke_rtcp", 64; "poke_index", 65;
   "failnth", 66; "peek", 67; "stream_update", 68; "nstreams", 69;
-  "spec_rtp", 70; "spec_rtcp", 71; "spec_kdf", 72; "heap", 73; "secret", 74; "icm", 33; "mktag", 75; "secrets", 76; "dealloc_trace", 77; "remove_trace", 78 ]
+  "spec_rtp", 70; "spec_rtcp", 71; "spec_kdf", 72; "heap", 73; "secret", 74; "icm", 33; "mktag", 75; "secrets", 76; "dealloc_trace", 77; "remove_trace", 78;
+  "stdpol", 79; "profpol", 80; "proflen", 81 ]
 
 let () =
   let st = ref ms_init in
